@@ -160,9 +160,18 @@ func c07History(c *h.Ctx, id string, r *rand.Rand) {
 				c.Inconclusive("cannot build Data: " + err.Error())
 				return
 			}
-			hist = append(hist, csOp{Op: "insert", Name: name.String(), Fresh: fms})
 			key := nkey(name)
 			_, existed := model[key]
+			if existed && r.Intn(2) == 0 {
+				// the very same packet arrives again (byte-identical): still a refresh
+				old := model[key]
+				if pk, _, perr := spec.ReadPacket(enc.NewBufferReader(append([]byte{}, old.wire...))); perr == nil && pk.Data != nil {
+					data, wire, fresh = pk.Data, old.wire, old.fresh
+					fms = -2
+					c.Count("identical_reinserts", 1)
+				}
+			}
+			hist = append(hist, csOp{Op: "insert", Name: name.String(), Fresh: fms})
 			t0 := time.Now()
 			wireArg := append([]byte{}, wire...)
 			if pi := h.Guard(func() { cs.InsertData(data, wireArg) }); pi != nil {
